@@ -1,6 +1,6 @@
 //! Models of PDF types
 
-use std::collections::HashMap;
+use std::collections::{HashMap, HashSet};
 use datasize::DataSize;
 
 use crate as pdf;
@@ -1142,11 +1142,11 @@ pub struct NameTree<T> {
 }
 impl<T: Object+DataSize> NameTree<T> {
     pub fn walk(&self, r: &impl Resolve, callback: &mut dyn FnMut(&PdfString, &T)) -> Result<(), PdfError> {
-        self.walk_limited(r, callback, &mut Vec::new(), TREE_MAX_DEPTH)
+        self.walk_limited(r, callback, &mut HashSet::new(), TREE_MAX_DEPTH)
     }
     // `seen`: kids visited so far. In a tree every node has one parent; a node reached twice means a
     // cycle (endless recursion) or a shared subtree (work exponential in the depth).
-    fn walk_limited(&self, r: &impl Resolve, callback: &mut dyn FnMut(&PdfString, &T), seen: &mut Vec<PlainRef>, depth: usize) -> Result<(), PdfError> {
+    fn walk_limited(&self, r: &impl Resolve, callback: &mut dyn FnMut(&PdfString, &T), seen: &mut HashSet<PlainRef>, depth: usize) -> Result<(), PdfError> {
         match self.node {
             NameTreeNode::Leaf(ref items) => {
                 for (name, val) in items {
@@ -1158,10 +1158,9 @@ impl<T: Object+DataSize> NameTree<T> {
                     bail!("name tree depth exceeded");
                 }
                 for &tree_ref in items {
-                    if seen.contains(&tree_ref.get_inner()) {
+                    if !seen.insert(tree_ref.get_inner()) {
                         bail!("name tree node {} is reachable more than once", tree_ref.get_inner().id);
                     }
-                    seen.push(tree_ref.get_inner());
                     let tree = r.get(tree_ref)?;
                     tree.walk_limited(r, callback, seen, depth - 1)?;
                 }
@@ -1320,9 +1319,9 @@ impl<T: ObjectWrite> ObjectWrite for NumberTree<T> {
 }
 impl<T: Object+DataSize> NumberTree<T> {
     pub fn walk(&self, r: &impl Resolve, callback: &mut dyn FnMut(i32, &T)) -> Result<(), PdfError> {
-        self.walk_limited(r, callback, &mut Vec::new(), TREE_MAX_DEPTH)
+        self.walk_limited(r, callback, &mut HashSet::new(), TREE_MAX_DEPTH)
     }
-    fn walk_limited(&self, r: &impl Resolve, callback: &mut dyn FnMut(i32, &T), seen: &mut Vec<PlainRef>, depth: usize) -> Result<(), PdfError> {
+    fn walk_limited(&self, r: &impl Resolve, callback: &mut dyn FnMut(i32, &T), seen: &mut HashSet<PlainRef>, depth: usize) -> Result<(), PdfError> {
         match self.node {
             NumberTreeNode::Leaf(ref items) => {
                 for &(idx, ref val) in items {
@@ -1334,10 +1333,9 @@ impl<T: Object+DataSize> NumberTree<T> {
                     bail!("number tree depth exceeded");
                 }
                 for &tree_ref in items {
-                    if seen.contains(&tree_ref.get_inner()) {
+                    if !seen.insert(tree_ref.get_inner()) {
                         bail!("number tree node {} is reachable more than once", tree_ref.get_inner().id);
                     }
-                    seen.push(tree_ref.get_inner());
                     let tree = r.get(tree_ref)?;
                     tree.walk_limited(r, callback, seen, depth - 1)?;
                 }
